@@ -45,6 +45,7 @@ CONSTANTS
   TupArgs,      \* argument atoms of Tuple[., .]
   UnionArgs,    \* SEQUENCE of argument atoms of Union[., .] (unordered pairs i < j)
   FnKinds, FnArgs, FnRets,   \* callables: one parameter of every kind
+  VtItems,      \* item types of the variadic / fixed tuple family (GenVarTup, GenFixedTup)
   Extras,       \* set of further terms given explicitly (nested or irregular shapes)
   SimpAtoms     \* SEQUENCE of atoms whose 3- and 4-element sub-lists are union item lists
 
@@ -75,6 +76,19 @@ GenUnion == /\ ph = "start" /\ ph' = "term" /\ UNCHANGED <<s, t, u, k>>
                   i < j /\ term' = Mk("Union", <<Atom(UnionArgs[i]), Atom(UnionArgs[j])>>)
 GenFn    == /\ ph = "start" /\ ph' = "term" /\ UNCHANGED <<s, t, u, k>>
             /\ \E o \in FnKinds, a \in FnArgs, r \in FnRets : term' = Mk(o, <<Atom(a), Atom(r)>>)
+\* variadic tuples Tuple[a.., *Tuple[m, ...], b..] with 0..2 fixed items before and 0..2 after the
+\* unpack, in every (unequal) combination: op VT<p> has p prefix items, then m, then the suffix items
+VTOp == <<"VT0", "VT1", "VT2">>
+Rep(a, n) == [i \in 1..n |-> Atom(a)]
+GenVarTup == /\ ph = "start" /\ ph' = "term" /\ UNCHANGED <<s, t, u, k>>
+             /\ \E p \in 0..2, q \in 0..2, a \in VtItems, m \in VtItems, b \in VtItems :
+                   term' = Mk(VTOp[p + 1], Rep(a, p) \o <<Atom(m)>> \o Rep(b, q))
+\* ... and the fixed tuples of the matching lengths (length 2 is GenTuple's)
+GenFixedTup == /\ ph = "start" /\ ph' = "term" /\ UNCHANGED <<s, t, u, k>>
+               /\ \/ \E a \in VtItems : term' = Mk("Tuple1", <<Atom(a)>>)
+                  \/ \E a \in VtItems, b \in VtItems : term' = Mk("Tuple2", <<Atom(a), Atom(b)>>)
+                  \/ \E a \in VtItems, b \in VtItems, c \in VtItems : term' = Mk("Tuple3", <<Atom(a), Atom(b), Atom(c)>>)
+                  \/ \E a \in VtItems, b \in VtItems : term' = Mk("Tuple4", <<Atom(a), Atom(a), Atom(b), Atom(b)>>)
 GenExtra == /\ ph = "start" /\ ph' = "term" /\ UNCHANGED <<s, t, u, k>>
             /\ \E x \in Extras : term' = x
 \* union item lists for the simplification law: strictly increasing index lists of length 3 and 4
@@ -85,7 +99,7 @@ GenItems == /\ ph = "start" /\ ph' = "term" /\ UNCHANGED <<s, t, u, k>>
                                          ELSE <<Atom(SimpAtoms[a]), Atom(SimpAtoms[b]), Atom(SimpAtoms[c]), Atom(SimpAtoms[d])>>)
 
 GenInit == ph = "start" /\ term = None /\ s = 0 /\ t = 0 /\ u = 0 /\ k = 0
-GenNext == GenAtom \/ GenUnary \/ GenType \/ GenTuple \/ GenUnion \/ GenFn \/ GenExtra \/ GenItems
+GenNext == GenAtom \/ GenUnary \/ GenType \/ GenTuple \/ GenUnion \/ GenFn \/ GenVarTup \/ GenFixedTup \/ GenExtra \/ GenItems
 GenSpec == GenInit /\ [][GenNext]_vars
 
 Emit == ph = "term" => PrintT(<<"TERM", ToJson(term)>>)
